@@ -125,6 +125,10 @@ func findAuthCalls(c *Ctx, fn *ssa.Function, field string) []*ssa.Call {
 			if loadOfRecvField(fn, cc.Args[1], field) {
 				out = append(out, call)
 			}
+		} else if ai, _, ok := singleAuthWrapper(cc.StaticCallee()); ok && fn.Pkg != nil && cc.StaticCallee().Pkg == fn.Pkg {
+			if loadOfRecvField(fn, cc.Args[ai], field) {
+				out = append(out, call)
+			}
 		} else if cc.IsInvoke() && isMethodCall(cc, authz, "Authorize") {
 			if loadOfRecvField(fn, cc.Value, field) {
 				out = append(out, call)
@@ -132,6 +136,66 @@ func findAuthCalls(c *Ctx, fn *ssa.Function, field string) []*ssa.Call {
 		}
 	})
 	return out
+}
+
+// singleAuthWrapper: h is a function that hands two of its parameters to
+// auth.AuthorizeSingleInstanceName as authorizer and instance name, returns a
+// nil error only on the nil edge of that verdict, and otherwise the verdict's
+// error (possibly wrapped by a call that is given it).  Returns the indices
+// (in the argument list of a call of h) of the authorizer and of the name.
+func singleAuthWrapper(h *ssa.Function) (authIdx, nameIdx int, ok bool) {
+	if h == nil || len(h.Blocks) == 0 || h.Signature.Results().Len() != 1 || !isErrorType(h.Signature.Results().At(0).Type()) {
+		return 0, 0, false
+	}
+	var inner *ssa.Call
+	nInner := 0
+	allInstrs(h, func(ins ssa.Instruction) {
+		if cl, isC := ins.(*ssa.Call); isC && isPkgFuncCall(cl.Common(), modPath+"/"+authRel, "AuthorizeSingleInstanceName") && len(cl.Call.Args) == 3 {
+			inner = cl
+			nInner++
+		}
+	})
+	if nInner != 1 {
+		return 0, 0, false
+	}
+	authIdx, nameIdx = -1, -1
+	for i, p := range h.Params {
+		if inner.Call.Args[1] == ssa.Value(p) {
+			authIdx = i
+		}
+		if inner.Call.Args[2] == ssa.Value(p) {
+			nameIdx = i
+		}
+	}
+	if authIdx < 0 || nameIdx < 0 {
+		return 0, 0, false
+	}
+	good := true
+	for _, r := range returnsOf(h) {
+		rv := returnedValue(r, 0)
+		if isNilConst(rv) {
+			if !dominatedByErrNil(r.Block(), inner) {
+				good = false
+			}
+			continue
+		}
+		if rv == ssa.Value(inner) {
+			continue
+		}
+		if cl, isC := rv.(*ssa.Call); isC {
+			takes := false
+			for _, a := range cl.Call.Args {
+				if a == ssa.Value(inner) {
+					takes = true
+				}
+			}
+			if takes {
+				continue
+			}
+		}
+		good = false
+	}
+	return authIdx, nameIdx, good
 }
 
 // backendCalls: invokes whose receiver is the embedded BlobAccess field.
@@ -268,6 +332,8 @@ func runR181(c *Ctx) {
 				var namesArg ssa.Value
 				if a.Call.IsInvoke() {
 					namesArg = a.Call.Args[1]
+				} else if _, ni, isW := singleAuthWrapper(a.Call.StaticCallee()); isW {
+					namesArg = a.Call.Args[ni]
 				} else {
 					namesArg = a.Call.Args[2]
 				}
